@@ -347,6 +347,7 @@ func (s *State) contractCall(call *ssa.Call, sp *FuncSpec, fn *ssa.Function, sig
 		s.assert(t)
 	}
 	snap := s.snapshot()
+	pathBefore := s.Path
 	wmBefore := s.WM
 	// callee may allocate: whatever it leaves in the modified locations or returns may be new
 	nw := s.freshConst("WM", "Int")
@@ -388,7 +389,7 @@ func (s *State) contractCall(call *ssa.Call, sp *FuncSpec, fn *ssa.Function, sig
 		s.assert(t)
 	}
 	// a contradictory callee contract would make everything after the call vacuous
-	c.Obls = append(c.Obls, &Obligation{Name: fmt.Sprintf("%s/vac-call@%s#%d", c.Key, short, occ), Kind: "vac", Func: c.Key, Desc: "assumptions still satisfiable after assuming the contract of " + short, Pos: c.posOf(call.Pos()), Path: s.Path, Goal: "false", ExpectSat: true, PathID: s.PathID})
+	c.Obls = append(c.Obls, &Obligation{Name: fmt.Sprintf("%s/vac-call@%s#%d", c.Key, short, occ), Kind: "vac", Func: c.Key, Desc: "assumptions still satisfiable after assuming the contract of " + short, Pos: c.posOf(call.Pos()), Path: s.Path, Before: pathBefore, Goal: "false", ExpectSat: true, PathID: s.PathID})
 	if sp.Trusted {
 		c.assume("trusted contract: " + sp.Pkg + "::" + sp.Name + strings.Join(sp.Notes, "; "))
 	} else if strings.HasSuffix(sp.File, ".spec") {
